@@ -103,6 +103,7 @@ type persistState struct {
 }
 
 var theInterp *interpreter
+var callCount uint64
 
 const repoModule = "github.com/thushan/olla"
 
@@ -556,6 +557,9 @@ func callSSA(i *interpreter, caller *frame, callpos token.Pos, fn *ssa.Function,
 	}
 	callFns = append(callFns, fn)
 	depth := len(callFns)
+	if callCount++; callCount&0xffff == 0 {
+		E.checkBudget()
+	}
 	if depth > 4000 {
 		panic(infraError{"interpreter call depth exceeded (runaway recursion?)"})
 	}
